@@ -31,13 +31,16 @@ CHECKS = {
     "C03": dict(
         text="TLC validates every consecutive pair of rows of every simulated agent against the model's transition functions "
              "(exact equality for deterministic states; positive probability in the signature-order row for stochastic states; "
-             "period-0 rows equal the supplied initial states).",
+             "period-0 rows equal the supplied initial states). Thorough: MC_Panel model-checks the whole forward loop (Decide, "
+             "SplitKeys, Draw, Advance, Frame composed from Simulate, Keys and Pipeline) over several periods and every stochastic "
+             "branch against the declarative transition relation Pipeline!SimStepOK.",
         note="Trusted: TLC, Mdl!CallF, Bellman!ShockRow. One-hot transition rows make the stochastic clause exact.",
         technique="TLC trace validation of recorded state transitions", ref="§6 C03"),
     "C05": dict(
         text="For base models with pairwise different grid sizes and for many (thorough: all) declaration orders of states, "
              "choices and functions, TLC compares list length, array shapes and every entry with StateSpace!Shape/Flat of the "
-             "exact solution.",
+             "exact solution. A layout-only stratum uses continuous grids finer than float32 resolution (coinciding nodes): "
+             "list length and shapes only.",
         note="Trusted: TLC, StateSpace!LayoutSeq (transcribes the wording of C05), asymmetric utilities generated per model.",
         technique="TLC trace validation of shapes and entries under the specified layout, enumerated declaration orders", ref="§6 C05"),
     "C06": dict(
@@ -53,7 +56,9 @@ CHECKS = {
         technique="TLC trace validation of template structure + behavioural routing through the reference semantics", ref="§6 C07"),
     "C13": dict(
         text="TLC checks row count, (period, initial_state_id) index in period-major order, the column set, _period and every "
-             "additional-target column (recomputed by the specification at the row) for 1/2/5 agents and T in 1..3.",
+             "additional-target column (recomputed by the specification at the row) for 1/2/5 agents and T in 1..3. Thorough: "
+             "MC_Panel (the forward loop as one state machine) establishes PanelComplete for every model of spec/Family.tla, every "
+             "two-agent batch and every stochastic branch, terminates under weak fairness, and refutes the agent-major variant.",
         note="Trusted: TLC, Pipeline!PanelIndex/PanelColumns/TargetVal.",
         technique="TLC trace validation of the recorded frame structure and target columns", ref="§6 C13"),
     "C08": dict(
@@ -152,7 +157,10 @@ CHECKS = {
              "previous and another variable's draw, against the rows of the specification with an exact-integer 6-sigma region "
              "(zero-probability labels must not occur). (3) Same seed => identical frame, other seed => identical period 0 (seeds include the ends of the range: 0, "
              "1, 2^31-1). MC_Keys also checks liveness under weak fairness (every period simulated, every variable draws in every "
-             "period); spec/apalache/KeysInd.tla discharges an inductive invariant of the key discipline for unbounded sizes.",
+             "period); spec/apalache/KeysInd.tla discharges an inductive invariant of the key discipline for unbounded sizes. "
+             "Thorough: MC_Panel checks the discipline inside the whole forward loop (keys split in every period, each agent draws "
+             "once per period and variable, period 0 decided before any key is consumed) and refutes the variant that does not "
+             "advance the carried key.",
         note="Trusted base: jax.random.split/choice. The statistical clause is an acceptance test (6 sigma, deterministic for a fixed VERIF_SEED).",
         technique="TLC model checking of the key discipline + trace validation of hooked key events + TLC-evaluated exact-integer frequency tests", ref="§6 C04"),
 }
